@@ -1173,8 +1173,12 @@ void race(const RaceScn &sc)
       mc_label("reader:sleep");
       std::this_thread::sleep_for(std::chrono::seconds(sc.actAtSec));
       mc_label("reader:read");
-      for (int round = 0; round < 1; ++round)
+      // no writer: read at the expiry instant (+1 s, expired but not evicted) and again at the eviction tick (+2 s)
+      const int rounds = sc.writer == 3 ? 2 : 1;
+      for (int round = 0; round < rounds; ++round)
       {
+        if (round > 0)
+          std::this_thread::sleep_for(std::chrono::seconds(1));
         Stamp r;
         if (sc.reader == 0)
         {
@@ -1362,15 +1366,16 @@ void race(const RaceScn &sc)
 }
 
 const RaceScn RACES[] = {
+  // quick: one deviation (a preemption, a timer deviation or a non-default successor); thorough: any two (P<=2, T<=1, S<=1)
   // name                      writer act reader  qP qT qTot  tP tT tTot
-  {"race_reset_plain_get", 0, 2, 0, 1, 1, 2, 2, 1, 2},
-  {"race_reset_ttl_get", 1, 2, 0, 1, 1, 2, 2, 1, 2},
+  {"race_reset_plain_get", 0, 2, 0, 1, 1, 1, 2, 1, 2},
+  {"race_reset_ttl_get", 1, 2, 0, 1, 1, 1, 2, 1, 2},
   {"race_reset_plain_scan", 0, 2, 2, 1, 1, 1, 2, 1, 2},
   {"race_reset_ttl_exists", 1, 2, 1, 1, 1, 1, 2, 1, 2},
   {"race_remove_batch", 2, 2, 3, 1, 1, 1, 2, 1, 2},
   {"race_reset_plain_at_expiry", 0, 1, 0, 1, 1, 1, 2, 1, 2},
   {"race_reset_ttl_at_expiry", 1, 1, 3, 1, 1, 1, 2, 1, 2},
-  {"race_evict_vs_readers", 3, 2, 0, 1, 1, 1, 2, 1, 2},
+  {"race_evict_vs_readers", 3, 1, 0, 1, 1, 1, 2, 1, 2},
 };
 } // namespace
 
@@ -1391,7 +1396,7 @@ int main(int argc, char **argv)
     std::string e = n > 0 ? std::string(exe, size_t(n)) : std::string();
     size_t k = e.rfind("/build/bin/");
     std::string buildDir = k != std::string::npos ? e.substr(0, k) + "/build" : std::string("/verif/build");
-    const std::string root = buildDir + "/scratch/C12";
+    const std::string root = getenv("C12_SCRATCH") ? std::string(getenv("C12_SCRATCH")) : buildDir + "/scratch/C12";
     g_scratchBase = root + "/" + std::to_string(getpid());
     // remove what an earlier, killed run left behind (directories named after process ids that no longer exist)
     if (DIR *d = opendir(root.c_str()))
@@ -1459,7 +1464,7 @@ int main(int argc, char **argv)
     // expired keys dropped, after each operation
     std::vector<Op> alpha(ALPHA_DEEP.begin(), ALPHA_DEEP.begin() + 14);
     const int depthAuto = envInt("C12_DEPTH_AUTO", thorough ? 4 : 3);
-    histScn("autocompact", [=]() { history(alpha, depthAuto, 1, U, PFX, 1); }, thorough ? 40 : 4);
+    histScn("autocompact", [=]() { history(alpha, depthAuto, 1, U, PFX, 1); }, thorough ? 40 : 8);
   }
   histScn(
     "boundary",
@@ -1484,7 +1489,7 @@ int main(int argc, char **argv)
     m.thorough.S = 1;
     m.thorough.total = s.tTot;
     m.horizon_s = 600;
-    m.weight = thorough ? 12 : (s.qTot > 1 ? 12 : 1);
+    m.weight = thorough ? 12 : 1;
     v.push_back(m);
   }
 #endif
